@@ -53,7 +53,6 @@ Lemma plus_digits_spec : forall b a k, dok a -> dok b -> (length b <= length a)%
 Proof.
   unfold res_spec. induction b as [|bi b' IH]; intros a k Ha Hb Hl Hk.
   - cbn [plus_digits lval]. pose proof (plus_carry_spec a k Ha Hk) as HH. unfold res_spec in HH. destruct HH as (V & D & L). split; [lia | auto].
-  - idtac. Undo. destruct (plus_carry_spec a k Ha Hk) as (V & D & L). split; [lia | auto].
   - destruct a as [|ai a']; [cbn [length] in Hl; lia|].
     apply dok_cons in Ha. apply dok_cons in Hb. destruct Ha as [Hai Ha'], Hb as [Hbi Hb'].
     cbn [plus_digits hd tl].
@@ -208,9 +207,10 @@ Proof.
   unfold IMM_MIN, IMM_MAX in *.
   unfold PlusStep.
   destruct (Z.leb_spec R (u64 (ai + bi + 0))) as [Hge|Hlt].
-  - cbn [Z.eqb andb]. apply plus_slow_ok; assumption.
-  - assert (E : u64 (ai + bi + 0) = ai + bi) by (unfold u64, W64, R in *; lia).
-    rewrite E in *. rewrite s64_id by (unfold H63, R in *; lia).
+  - cbv beta iota zeta. cbn [Z.eqb andb]. apply plus_slow_ok; assumption.
+  - assert (E0 : 0 <= ai + bi) by (unfold u64, W64, R in *; lia).
+    assert (E : u64 (ai + bi + 0) = ai + bi) by (unfold u64, W64, R in *; lia).
+    rewrite E in *. cbv beta iota zeta. rewrite s64_id by (unfold H63, R in *; lia).
     assert (Hi : INT_IS_IMMED (ai + bi) = true) by (unfold INT_IS_IMMED, IMM_MIN, IMM_MAX, R in *; lia).
     rewrite Hi. cbn [Z.eqb andb].
     destruct (IntToBInt_norm (ai + bi)) as (E1 & N); [unfold IMM_MIN, IMM_MAX, R in *; lia|].
